@@ -3,6 +3,7 @@
  */
 
 #include <ctype.h>
+#include <errno.h>
 #include <stdlib.h>
 #include <inttypes.h>
 #include <limits.h>
@@ -46,7 +47,12 @@ extern int _mpt_convert_int(void *val, size_t vlen, const char *src, int base)
 		return 0;
 	}
 	/* max size unsigend integer */
+	errno = 0;
 	tmp = strtoimax(src, &end, base);
+	/* magnitude exceeds maximum integer size */
+	if (errno == ERANGE) {
+		return MPT_ERROR(BadValue);
+	}
 	if (end == src) {
 		/* accept space as empty string */
 		while (*src) {
@@ -109,7 +115,12 @@ extern int _mpt_convert_uint(void *val, size_t vlen, const char *src, int base)
 		return 0;
 	}
 	/* max size unsigend integer */
+	errno = 0;
 	tmp = strtoumax(src, &end, base);
+	/* magnitude exceeds maximum integer size */
+	if (errno == ERANGE) {
+		return MPT_ERROR(BadValue);
+	}
 	if (end == src) {
 		/* accept space as empty string */
 		while (*src) {
